@@ -168,16 +168,18 @@ impl DocumentCount {
         folder_id: VaultId,
         mut options: Option<(u8, HashSet<String>, bool)>,
     ) {
-        self.vaults
-            .entry(folder_id)
-            .and_modify(|counter| {
-                if *counter > 0 {
-                    *counter -= 1;
-                }
-            })
-            .or_insert(0);
-
+        // Only a document that was actually in the index
+        // may change the counters
         if let Some((kind, tags, favorite)) = options.take() {
+            self.vaults
+                .entry(folder_id)
+                .and_modify(|counter| {
+                    if *counter > 0 {
+                        *counter -= 1;
+                    }
+                })
+                .or_insert(0);
+
             if !self.is_archived(&folder_id) {
                 self.kinds
                     .entry(kind)
